@@ -18,11 +18,15 @@ Open Scope N_scope.
 
 Definition str := list N.
 Definition path := list str.
+Definition nonempty_l {A} (l:list A) : bool := match l with [] => false | _ => true end.
 
 (* ------------------------------------------------------------------ the file tree *)
 Inductive node :=
-| File (c : option N)              (* Some id: an importable module (source or byte code, according to its name) that
-                                      defines `revision = id`; None: content that cannot be imported *)
+| File (c : option N)              (* Some code: an importable module (source or byte code, according to its name);
+                                      code = mkcode rid tag: the module defines `revision = rid` (rid = 0: it has no
+                                      `revision` attribute) and is identified by tag (its docstring; down_revision,
+                                      branch_labels, depends_on are attributes of the same module object and reach
+                                      Revision.__init__ unchanged).  None: content that cannot be imported *)
 | Dir (es : list (str * node))
 | Link (t : path).                 (* symbolic link to the absolute (= root-relative) path t *)
 Definition entry := (str * node)%type.
@@ -112,18 +116,36 @@ Definition exists_in (T:node) (d:path) (nm:str) : bool :=
 (* ------------------------------------------------------------------ Script._list_py_dir *)
 Definition ends_pycache (nm:str) : bool := suffixb s_pycache nm.         (* root.endswith("__pycache__") *)
 
+(* sorted(names) / names.sort(): Python orders str by code points *)
+Fixpoint str_leb (a b:str) : bool :=
+  match a, b with
+  | [], _ => true
+  | _ :: _, [] => false
+  | x :: a', y :: b' => if N.ltb x y then true else if N.eqb x y then str_leb a' b' else false
+  end.
+Fixpoint insert_by {A} (key:A -> str) (x:A) (l:list A) : list A :=
+  match l with
+  | [] => [x]
+  | y :: r => if str_leb (key x) (key y) then x :: l else y :: insert_by key x r
+  end.
+Definition sort_by {A} (key:A -> str) (l:list A) : list A := fold_right (insert_by key) [] l.
+
 (* the directories os.walk(top, topdown=True) visits without following links, minus those the loop `continue`s
-   over; `skip` says whether the directory's own name ends with "__pycache__" *)
+   over, in visiting order; `skip` says whether the directory's own name ends with "__pycache__".  The entries of a
+   Dir are in os.scandir / os.listdir order (observed by the harness): `dirs.sort()` at the end of the loop body puts
+   the sub-directories in name order — except below a skipped directory, where `continue` jumps over the sort too. *)
 Fixpoint walk_dirs (skip:bool) (d:path) (n:node) {struct n} : list (path * list entry) :=
   match n with
   | Dir es =>
       (if skip then [] else [(d, es)]) ++
-      (fix sub (l:list entry) : list (path * list entry) :=
-         match l with
-         | [] => []
-         | (nm, c) :: r =>
-             (match c with Dir _ => walk_dirs (ends_pycache nm) (d ++ [nm]) c | _ => [] end) ++ sub r
-         end) es
+      flat_map snd
+        ((if skip then (fun l => l) else sort_by fst)
+           ((fix sub (l:list entry) : list (str * list (path * list entry)) :=
+               match l with
+               | [] => []
+               | (nm, c) :: r =>
+                   (nm, match c with Dir _ => walk_dirs (ends_pycache nm) (d ++ [nm]) c | _ => [] end) :: sub r
+               end) es))
   | _ => []
   end.
 
@@ -132,8 +154,9 @@ Definition lentry := (path * str * node)%type.
 Definition le_path (le:lentry) : path := fst (fst le) ++ [snd (fst le)].
 
 Definition file_entries (T:node) (es:list entry) : list entry := filter (fun e => negb (is_dirlike T (snd e))) es.
+(* `for filename in sorted(files): paths.append(os.path.join(root, filename))` *)
 Definition files_here (T:node) (d:path) (es:list entry) : list lentry :=
-  map (fun e => (d, fst e, snd e)) (file_entries T es).
+  map (fun e => (d, fst e, snd e)) (sort_by fst (file_entries T es)).
 (* filename.endswith((".py", ".pyc", ".pyo")) *)
 Definition py_suffixed (n:str) : bool := suffixb s_py n || suffixb s_pyc n || suffixb s_pyo n.
 (* `names = {filename.split(".")[0] for filename in files if filename.endswith((".py", ".pyc", ".pyo"))}`;
@@ -189,12 +212,33 @@ Inductive fres := Skip | Loaded (id:N) | Fail.
 Definition ext_lost (nm:str) (k:fkind) : bool :=
   let n := match k with KSrc => 3%nat | _ => 4%nat end in
   forallb (N.eqb 46) (firstn (length nm - n) nm).
-(* util.load_python_file + `module.revision`.  No importlib loader is registered for ".pyo", load_module_py then
-   uses SourcelessFileLoader explicitly: a .pyo holding valid byte code loads like a .pyc. *)
+(* what a loaded Script is, as one number: the revision id and the identity of the module *)
+Definition mkcode (rid tag:N) : N := rid * 65536 + tag.
+Definition rid_of (code:N) : N := code / 65536.
+Definition tag_of (code:N) : N := code mod 65536.
+
+(* _legacy_rev = re.compile(r"([a-f0-9]+)\.py$").match(filename): the whole name is hex digits followed by ".py".
+   The id string is encoded as a number: digits read in base 16 after a leading 1 (keeps leading zeros), plus 1000. *)
+Definition is_hex (c:N) : bool := (N.leb 48 c && N.leb c 57) || (N.leb 97 c && N.leb c 102).
+Definition hex_val (c:N) : N := if N.leb c 57 then c - 48 else c - 87.
+Definition legacy_rev (nm:str) : option N :=
+  if suffixb s_py nm then
+    let h := firstn (length nm - 3) nm in
+    if nonempty_l h && forallb is_hex h then Some (1000 + fold_left (fun v c => v * 16 + hex_val c) h 1) else None
+  else None.
+(* `module.revision`, or for a module without that attribute the id taken from the file name (else CommandError) *)
+Definition module_revision (nm:str) (code:N) : option N :=
+  if N.eqb (rid_of code) 0 then
+    match legacy_rev nm with Some r => Some (mkcode r (tag_of code)) | None => None end
+  else Some code.
+
+(* util.load_python_file + the `revision` of the module.  No importlib loader is registered for ".pyo",
+   load_module_py then uses SourcelessFileLoader explicitly: a .pyo holding valid byte code loads like a .pyc.
+   (pyc_file_from_path is only reached for a listed ".py" name that does not exist: never, for a realpath.) *)
 Definition load_python_file (nm:str) (k:fkind) (c:node) : fres :=
   if ext_lost nm k then Fail
   else match c with
-       | File (Some id) => Loaded id
+       | File (Some code) => match module_revision nm code with Some r => Loaded r | None => Fail end
        | _ => Fail
        end.
 Definition from_filename (T:node) (sl:bool) (le:lentry) : fres :=
@@ -246,9 +290,17 @@ Inductive lerr := EValue | ELoad | EOther.     (* ValueError from from_config / 
 Inductive res (A:Type) := Ok (a:A) | Err (e:lerr).
 Arguments Ok {A} a. Arguments Err {A} e.
 
-Record obs := mkObs { o_ids : list N;      (* revision ids yielded by _load_revisions, as a multiset *)
+(* RevisionMap._revision_map: `map_[revision.revision] = revision` — the last Script with an id stays *)
+Fixpoint rev_map (ids:list N) : list N :=
+  match ids with
+  | [] => []
+  | x :: r => if memN (rid_of x) (map rid_of r) then rev_map r else x :: rev_map r
+  end.
+
+Record obs := mkObs { o_ids : list N;      (* Scripts yielded by _load_revisions (codes), as a multiset *)
                       o_twice : N;         (* number of "File ... loaded twice! ignoring" warnings *)
-                      o_dups : list N }.   (* ids named by "Revision ... is present more than once", as a multiset *)
+                      o_dups : list N;     (* revision ids named by "Revision ... is present more than once", as a multiset *)
+                      o_map : list N }.    (* the Scripts in the final revision map (codes), as a set *)
 
 (* a resolved location: real path of the directory, the node there, and whether the configured
    (normalised, unresolved) name ends with __pycache__ *)
@@ -259,15 +311,17 @@ Definition listing (T:node) (sl rec:bool) (locs:list rloc) : list lentry :=
 Definition listing_bad (sl rec:bool) (locs:list rloc) : bool :=
   existsb (fun l : rloc => list_py_dir_bad sl rec (snd l) (fst (fst l)) (snd (fst l))) locs.
 
+(* the loop of _load_revisions over the listed paths, in listing order, followed by the construction of the map *)
+Definition load_listing (T:node) (sl:bool) (L:list lentry) : res obs :=
+  let reals := map (real_of T) L in
+  let uniq := dedupe_paths [] reals in
+  match collect (map (from_filename T sl) uniq) with
+  | None => Err ELoad
+  | Some ids => Ok (mkObs ids (N.of_nat (length reals - length uniq)) (dup_ids [] (map rid_of ids)) (rev_map ids))
+  end.
 Definition load_from (T:node) (sl rec:bool) (locs:list rloc) : res obs :=
   if listing_bad sl rec locs then Err ELoad
-  else
-    let reals := map (real_of T) (listing T sl rec locs) in
-    let uniq := dedupe_paths [] reals in
-    match collect (map (from_filename T sl) uniq) with
-    | None => Err ELoad
-    | Some ids => Ok (mkObs ids (N.of_nat (length reals - length uniq)) (dup_ids [] ids))
-    end.
+  else load_listing T sl (listing T sl rec locs).
 
 (* ------------------------------------------------------------------ from_config: version_locations *)
 Inductive sep := SepNone | SepSpace | SepNewline | SepOs | SepColon | SepSemi | SepBad.
